@@ -24,7 +24,7 @@ OUTCOMES_NOT_RUN = {"SKIP", "SKIP_UNCHANGED", "SKIP_PREVIOUS_FAILED", "PERSISTEN
 
 def gen_spec(rng, *, nt=(2, 6), marks=(), behs=("ok",), after_p=0.3, nomods=(1, 3), prodless_p=0.15,
              multi_prod_p=0.25, dens=0.5, user_markers=False, styles=("default", "annotated", "kwargs", "return"),
-             after_needs_prods=False, marks_below_p=0.0, link_p=0.0, dirprod_p=0.0, hashed_p=0.0, bag_p=0.0, subdir_p=0.0, pygroup_p=0.0):
+             after_needs_prods=False, marks_below_p=0.0, link_p=0.0, dirprod_p=0.0, hashed_p=0.0, bag_p=0.0, subdir_p=0.0, pygroup_p=0.0, kwsplit_p=0.0):
     n = rng.randint(*nt)
     nmods = rng.randint(*nomods)
     tasks = []
@@ -91,6 +91,10 @@ def gen_spec(rng, *, nt=(2, 6), marks=(), behs=("ok",), after_p=0.3, nomods=(1, 
             if t["deps"] and t["beh"] == "ok" and rng.random() < bag_p:
                 k = rng.randint(1, len(t["deps"]))
                 t["bag"] = {"kind": rng.choice(["dict", "list", "tuple"]), "deps": sorted(rng.sample(t["deps"], k))}   # deps inside a container with plain values
+    if kwsplit_p:
+        for t in tasks:
+            if t["style"] == "kwargs" and len(t["deps"]) >= 2 and rng.random() < kwsplit_p:
+                t["kw_split"] = rng.randint(1, len(t["deps"]) - 1)             # some dependencies in @task(kwargs=…), the rest as defaults
     if pygroup_p:
         for t in tasks:
             if not (t["prods"] and t["beh"] == "ok" and rng.random() < pygroup_p):
@@ -265,6 +269,8 @@ def run_history(server, hist, ctx=None, keep=False, servers=None):
                         alias.symlink_to(root, target_is_directory=True)
                     extra_dirs.append(alias)
                     opts = {"raw_paths": [str(alias)]}
+                if hist.get("as_tasks"):         # the programmatic interface: build(tasks=[every task function of the project])
+                    opts = {"as_tasks": True}
                 obs = server.build(root, builder.cfg_to_kw(cfg), env=step[2] if len(step) > 2 else None, **opts)
                 obs["log"] = project.read_log(root)
                 post = project.snapshot_nodes(root, spec)
